@@ -211,6 +211,16 @@ func (e *Engine) harnessAPI(name string, args []Value, fn *ssa.Function) (Value,
 			}
 		}
 		return e.c64(uint64(c)), true
+	case "vExpectBool", "vExpectInt":
+		// differential hook: the model's value of an observable is stored with the witness and compared natively
+		n := "expect:" + e.freshName("x:"+e.argStr(args[0]))
+		t := args[1].(*Term)
+		kind := "bool"
+		if name == "vExpectInt" {
+			kind = "int64"
+		}
+		e.nondets = append(e.nondets, &Nondet{Name: n, Kind: kind, Term: t})
+		return nil, true
 	case "vOr":
 		return tt.Or(args[0].(*Term), args[1].(*Term)), true
 	case "vAnd":
